@@ -50,6 +50,8 @@ def op_cases(tier):
                 ra = "none" if a == "204" else ka
                 rb = "none" if b == "204" else kb
                 out.append(ops.op("get", "/r", [], None, {a: ra, b: rb}))
+    out.append(ops.op("get", "/r", [], None, {"200": "json-array-inline-a", "201": "json-array-inline-b"}))
+    out.append(ops.op("get", "/r", [], None, {"200": "json-array-inline-b", "201": "json-array-inline-a"}))
     out.append(ops.op("get", "/r", [], None, {"200": "json-model", "default": "json-other"}))
     out.append(ops.op("get", "/r", [], None, {"201": "json-array-model", "default": "json-other"}))
     out.append(ops.op("post", "/r", [], {"kind": "json-ref", "required": True}, {"200": "json-model", "404": "json-other"}))
